@@ -90,8 +90,63 @@ func c08glyphRuns(r *rand.Rand, n, max int) []glyph.ID {
 			}
 		}
 	}
+	// the two ends of the glyph range: glyph 0 and the last glyph of the font
+	if g := glyph.ID(0); r.IntN(4) == 0 && !seen[g] {
+		out = append(out, g)
+	}
+	if g := glyph.ID(max - 1); r.IntN(4) == 0 && !seen[g] {
+		out = append(out, g)
+	}
 	sort.Slice(out, func(i, j int) bool { return out[i] < out[j] })
 	return out
+}
+
+// c08classRuns returns runs of consecutive glyphs below max with one non-zero
+// class (< nc, nc >= 3) per run, for a class definition table of a forced
+// format: dense = one block of glyphs whose classes change from glyph to
+// glyph (format 1 is smaller), otherwise a few long runs far apart (format 2
+// is smaller).  Blocks and runs touch glyph 0 and the last glyph now and then.
+func c08classRuns(r *rand.Rand, dense, large bool, nc, max int) (gids []glyph.ID, class map[glyph.ID]uint16) {
+	class = map[glyph.ID]uint16{}
+	place := func(l int) int { // start of a run of l glyphs
+		switch r.IntN(4) {
+		case 0:
+			return 0
+		case 1:
+			return max - l
+		}
+		return r.IntN(max - l + 1)
+	}
+	if dense {
+		l := min(4+r.IntN(30), max)
+		if large { // every class in use: the class pair matrix is as large as in the free mode
+			l = min(nc-1+r.IntN(30), max)
+		}
+		s := place(l)
+		for i := 0; i < l; i++ {
+			g := glyph.ID(s + i)
+			gids = append(gids, g)
+			class[g] = uint16(1 + i%(nc-1))
+		}
+		return
+	}
+	for j := 1 + r.IntN(2); j > 0; j-- {
+		l := min(8+r.IntN(12), max/3)
+		s := place(l)
+		cls := uint16(1 + r.IntN(nc-1))
+		if large && j == 1 {
+			cls = uint16(nc - 1)
+		}
+		for i := 0; i < l; i++ {
+			g := glyph.ID(s + i)
+			if _, dup := class[g]; !dup {
+				gids = append(gids, g)
+			}
+			class[g] = cls
+		}
+	}
+	sort.Slice(gids, func(i, j int) bool { return gids[i] < gids[j] })
+	return
 }
 
 func c08kernSubtable(r *rand.Rand, nGlyphs int, large bool, kf *c08kernFont) gtab.Subtable {
@@ -122,22 +177,48 @@ func c08kernSubtable(r *rand.Rand, nGlyphs int, large bool, kf *c08kernFont) gta
 		n1, n2 = 60+r.IntN(40), 80+r.IntN(40)
 	}
 	st := &gtab.Gpos2_2{Cov: coverage.Set{}, Class1: classdef.Table{}, Class2: classdef.Table{}}
-	covered := c08glyphRuns(r, min(2+r.IntN(20), nGlyphs/2), nGlyphs)
 	max1, max2 := 0, 0
-	for _, g := range covered { // (a slice: the PRNG is consumed in a fixed order)
-		st.Cov[g] = true
-		if r.IntN(4) > 0 { // covered glyphs of class 0 are legitimate
-			c := r.IntN(n1)
-			if c > 0 {
-				st.Class1[g] = uint16(c)
-				max1 = max(max1, c)
+	var covered []glyph.ID
+	// class definition tables: free (mode 0), or of a forced format
+	if mode := r.IntN(3); mode == 0 {
+		covered = c08glyphRuns(r, min(2+r.IntN(20), nGlyphs/2), nGlyphs)
+		for _, g := range covered { // (a slice: the PRNG is consumed in a fixed order)
+			st.Cov[g] = true
+			if r.IntN(4) > 0 { // covered glyphs of class 0 are legitimate
+				c := r.IntN(n1)
+				if c > 0 {
+					st.Class1[g] = uint16(c)
+					max1 = max(max1, c)
+				}
 			}
 		}
-	}
-	for _, g := range c08glyphRuns(r, min(2+r.IntN(30), nGlyphs/2), nGlyphs) {
-		if c := r.IntN(n2); c > 0 {
-			st.Class2[g] = uint16(c)
-			max2 = max(max2, c)
+		for _, g := range c08glyphRuns(r, min(2+r.IntN(30), nGlyphs/2), nGlyphs) {
+			if c := r.IntN(n2); c > 0 {
+				st.Class2[g] = uint16(c)
+				max2 = max(max2, c)
+				kf.hot2 = append(kf.hot2, g)
+			}
+		}
+	} else {
+		n1, n2 = max(n1, 3), max(n2, 3)
+		var cls map[glyph.ID]uint16
+		covered, cls = c08classRuns(r, mode == 1, large, n1, nGlyphs)
+		for _, g := range covered {
+			st.Cov[g] = true
+			st.Class1[g] = cls[g]
+			max1 = max(max1, int(cls[g]))
+		}
+		if r.IntN(3) == 0 { // a covered glyph of class 0 next to the classified ones
+			g := glyph.ID(r.IntN(nGlyphs))
+			if _, classified := st.Class1[g]; !classified {
+				st.Cov[g] = true
+				covered = append(covered, g)
+			}
+		}
+		seconds, cls2 := c08classRuns(r, mode == 1, large, n2, nGlyphs)
+		for _, g := range seconds {
+			st.Class2[g] = cls2[g]
+			max2 = max(max2, int(cls2[g]))
 			kf.hot2 = append(kf.hot2, g)
 		}
 	}
@@ -264,7 +345,11 @@ func c08ximageStratum(c *mon.Ctx) {
 			r.Shuffle(len(seconds), func(i, j int) { seconds[i], seconds[j] = seconds[j], seconds[i] })
 			seconds = seconds[:80]
 		}
+		// both ends of the glyph range are always asked about
+		firsts = uniqueSorted(append(firsts, 0, glyph.ID(n-1)))
+		seconds = uniqueSorted(append(seconds, 0, glyph.ID(n-1)))
 		found, notFound, later := 0, 0, 0
+		found0, foundLast := 0, 0
 		for _, a := range firsts {
 			for _, b := range seconds {
 				want, wantFound := c08expectKern(kf.subs, a, b)
@@ -280,6 +365,12 @@ func c08ximageStratum(c *mon.Ctx) {
 				}
 				if wantFound {
 					found++
+					if a == 0 || b == 0 {
+						found0++
+					}
+					if int(a) == n-1 || int(b) == n-1 {
+						foundLast++
+					}
 					if _, first := c08expectKern(kf.subs[:1], a, b); !first {
 						later++
 					}
@@ -291,8 +382,40 @@ func c08ximageStratum(c *mon.Ctx) {
 		k.ClassN("ximage-kern:pairs-found", found)
 		k.ClassN("ximage-kern:pairs-not-found", notFound)
 		k.ClassN("ximage-kern:decided-by-later-subtable", later)
+		k.ClassN("ximage-kern:pairs-found-with-glyph-0", found0)
+		k.ClassN("ximage-kern:pairs-found-with-last-glyph", foundLast)
 		for _, st := range kf.subs {
 			k.Class("ximage-kern:" + c06kindName(st, true))
+			switch st := st.(type) {
+			case gtab.Gpos2_1:
+				for p := range st {
+					if p.Left == 0 || p.Right == 0 {
+						k.Class("ximage-kern:gpos2.1-with-glyph-0")
+					}
+					if int(p.Left) == n-1 || int(p.Right) == n-1 {
+						k.Class("ximage-kern:gpos2.1-with-last-glyph")
+					}
+				}
+			case *gtab.Gpos2_2:
+				// which format did the class definition tables get?  (byte 1 of the encoded table)
+				for i, cd := range []classdef.Table{st.Class1, st.Class2} {
+					if len(cd) > 0 {
+						k.Class(fmt.Sprintf("ximage-kern:classdef%d-format%d", i+1, cd.Append(nil)[1]))
+					}
+					if _, ok := cd[0]; ok {
+						k.Class("ximage-kern:gpos2.2-class-of-glyph-0")
+					}
+					if _, ok := cd[glyph.ID(n-1)]; ok {
+						k.Class("ximage-kern:gpos2.2-class-of-last-glyph")
+					}
+				}
+				if st.Cov[0] {
+					k.Class("ximage-kern:gpos2.2-covers-glyph-0")
+				}
+				if st.Cov[glyph.ID(n-1)] {
+					k.Class("ximage-kern:gpos2.2-covers-last-glyph")
+				}
+			}
 		}
 		if large {
 			k.Class("ximage-kern:large")
@@ -313,5 +436,10 @@ func c08ximageStratum(c *mon.Ctx) {
 	})
 	c.Require("ximage-kern:gpos2.1", "ximage-kern:gpos2.2", "ximage-kern:large", "ximage-kern:beyond-64k",
 		"ximage-kern:script=und-Latn-x-latn", "ximage-kern:script=und-Zzzz-x-DFLT",
-		"ximage-kern:pairs-found", "ximage-kern:pairs-not-found", "ximage-kern:decided-by-later-subtable")
+		"ximage-kern:pairs-found", "ximage-kern:pairs-not-found", "ximage-kern:decided-by-later-subtable",
+		"ximage-kern:pairs-found-with-glyph-0", "ximage-kern:pairs-found-with-last-glyph",
+		"ximage-kern:gpos2.1-with-glyph-0", "ximage-kern:gpos2.1-with-last-glyph",
+		"ximage-kern:gpos2.2-covers-glyph-0", "ximage-kern:gpos2.2-covers-last-glyph",
+		"ximage-kern:gpos2.2-class-of-glyph-0", "ximage-kern:gpos2.2-class-of-last-glyph",
+		"ximage-kern:classdef1-format1", "ximage-kern:classdef1-format2", "ximage-kern:classdef2-format1", "ximage-kern:classdef2-format2")
 }
